@@ -217,6 +217,18 @@ def mixed_ordered_group(dev, new, rules):
     return False
 
 
+def ordered_rows_with_different_ranks(pt):
+    """some block of the patch holds two commands of ONE %ordered rule to which the ordering rulebook gives different
+    ranks: make_patch sorts them by rank, whatever order the target wants"""
+    by_rule = {}
+    for row, ch, key in pt:
+        if key and "%ordered" in key[1]:
+            by_rule.setdefault(key[1], set()).add(key[0])
+    if any(len(v) > 1 for v in by_rule.values()):
+        return True
+    return any(ch and ordered_rows_with_different_ranks(ch) for _, ch, _ in pt)
+
+
 def removal_after_creation(paths, rules, vendor):
     """some block of the patch removes a (rule, key) AFTER (re-)creating it — only an %order_reverse pin can do that"""
     from annet.annlib import patching
@@ -327,6 +339,8 @@ def oracle(case, r):
                 d = None
             elif d is None and mixed_ordered_group(dev_r, new_r, rules):
                 sig = "ordered-rows-of-different-rules-resorted"
+            elif d is None and ordered_rows_with_different_ranks(s["patch"]):
+                sig = "ordered-rows-resorted-by-ordering-ranks"
             elif d is None and replaced_in_ordered_group(restricted(s["dev"], rules), new_r, rules):
                 sig = "ordered-order-after-in-place-replacement"
             if d:
